@@ -265,5 +265,30 @@ def main(argv=None):
     return 0
 
 
+def main_with_scratch(argv=None):
+    """Everything a run puts on disk goes under one directory of its own, removed at the end - also what workers that were
+    stopped by the time cap or the watchdog left behind."""
+    import shutil
+    import tempfile
+    base = os.environ.get('VERIF_SCRATCH')
+    if not base:
+        for b in ('/dev/shm', os.environ.get('TMPDIR') or '/tmp'):
+            if os.path.isdir(b) and os.access(b, os.W_OK):
+                base = os.path.join(b, 'pysyncobj-verif')
+                break
+    d = None
+    try:
+        os.makedirs(base, exist_ok=True)
+        d = tempfile.mkdtemp(prefix='run-', dir=base)
+        os.environ['VERIF_SCRATCH'] = d
+    except Exception:
+        d = None
+    try:
+        return main(argv)
+    finally:
+        if d is not None:
+            shutil.rmtree(d, ignore_errors=True)
+
+
 if __name__ == '__main__':
-    sys.exit(main())
+    sys.exit(main_with_scratch())
